@@ -22,8 +22,11 @@ Call ==
     [] OTHER -> [k |-> "pop", obs |-> Obs]
 GInit == Init /\ ops = <<>>
 GNext ==
-  /\ IF lastOp[1] = "push" THEN \E i \in 1..NA, tv \in {"T", "F"} : AssertLit(i, tv)
-     ELSE Push \/ Pop \/ (layers = <<>> /\ \E i \in 1..NA, tv \in {"T", "F"} : AssertLit(i, tv))
+  /\ LET Some == \/ \E i \in 1..NA, tv \in {"T", "F"} : AssertLit(i, tv)
+                 \* two literals on the same variable in one batch (a decision that implies both), in both orders of arrival:
+                 \* the theory sees the first while the second is assigned but not yet propagated
+                 \/ \E i, j \in 1..NA, tvi, tvj \in {"T", "F"} : i # j /\ Atoms[i].x = Atoms[j].x /\ lastOp[1] = "push" /\ AssertBatch(<<IF tvi = "T" THEN i ELSE -i, IF tvj = "T" THEN j ELSE -j>>)
+     IN IF lastOp[1] = "push" THEN Some ELSE Push \/ Pop \/ (layers = <<>> /\ Some)
   /\ ops' = Append(ops, Call)
 GSpec == GInit /\ [][GNext]_<<vars, ops>>
 \* the tests are drawn per abstract state: bounds with reasons, truth values, undo layers, basis (values and row
